@@ -13,6 +13,9 @@ import vlib, glob
 c = vlib.Check("_setup")
 for d in sorted(glob.glob(os.path.join(vlib.HARNESS, "cmd", "*"))):
     c.go_build(os.path.basename(d))
+import shutil
+c.log.close()
+shutil.rmtree(c.build, ignore_errors=True)   # only the Go build cache is wanted
 PY
 for t in go/decgen go/wiregen go/lockaudit; do [ -d $t ] && ( cd $t && go build -o /dev/null . ) || true; done
 echo "setup done"
